@@ -361,6 +361,12 @@ func init() {
 				s = oddSubs(s)
 				res.obs("cases_with_free_form_subtypes", 1)
 			}
+			if c.Idx%13 == 10 {
+				// supplied values carry the functions' subtypes in UPPER case
+				// (a different subtype: only names are case-insensitive)
+				s = caseSubs(s)
+				res.obs("cases_with_subtypes_that_differ_in_case_only", 1)
+			}
 			res.Key = s.Key()
 			if usesExotic(s) {
 				res.obs("cases_over_exotic_types", 1)
